@@ -24,12 +24,12 @@ PROPS = {
                         "round trip over all widths/indents is not enumerated; the token-level argument is layout-independent"],
     },
     "C15": {
-        "rules": [typing_rules.rule_zip, typing_rules.rule_dup, typing_rules.rule_nodup, typing_rules.rule_result, typing_rules.rule_clause_exits, typing_rules.rule_lookup, typing_rules.rule_checkall, typing_rules.rule_instance, typing_rules.rule_tyrule, typing_rules.rule_tywf,
+        "rules": [typing_rules.rule_zip, typing_rules.rule_dup, typing_rules.rule_nodup, typing_rules.rule_result, typing_rules.rule_clause_exits, typing_rules.rule_lookup, typing_rules.rule_checkall, typing_rules.rule_instance, typing_rules.rule_tyrule, typing_rules.rule_tywf, typing_rules.rule_keyed,
                   traversal.rule_trav(["fun::typing::check::Check"]), annot.rule_annot_check, panics.rule_panic(("A",))],
         "text": "Rejection discipline of the type checker, decided for every program: zips are length-guarded (R-ZIP), declarations are "
                 "inserted only after a duplicate check that returns Err (R-DUP), binder lists are checked for duplicates before use "
                 "(R-NODUP), no typing Result is dropped or defused and no look-up is defaulted (R-RESULT), the clause-matching and "
-                "arity diagnostics are reachable (R-EXITS), every subterm is checked and annotated (R-TRAV, R-ANNOT), the typing rule of every simple term form - which subterm is checked in which context against which type - is the rule of the language (R-TYRULE, read off the folded Check::check), and nothing "
+                "arity diagnostics are reachable (R-EXITS), every subterm is checked and annotated (R-TRAV, R-ANNOT), the typing rule of every simple term form - which subterm is checked in which context against which type - is the rule of the language (R-TYRULE, read off the folded Check::check), supplied types are checked for well-formedness before a term is checked against them (R-TYWF), no typing rule gathers parts of the term into a keyed collection, where a duplicated clause would vanish unseen (R-KEYED), and nothing "
                 "reachable from parsing/checking can panic (R-PANIC zone A). R-TYRULE: the typing rule each term form implements (literal, variable, arithmetic, conditional, let, label, goto, exit, print, parentheses, call, constructor, destructor) - which subterm is checked in which context against which type, which types are compared - is read off the folded Check::check and compared with the rule of the language.",
         "assumptions": ["acceptance of every well-typed program and correctness of type equality itself are not decided"],
     },
@@ -47,12 +47,13 @@ PROPS = {
     },
     "C14": {
         "rules": [labels.rule_stride, labels.rule_jtorder, labels.rule_label, codegen.rule_isel("x86_64"), codegen.rule_isel("aarch64"),
-                  codegen.rule_isel("rv64"), hygiene.rule_seed],
+                  codegen.rule_isel("rv64"), hygiene.rule_seed, typing_rules.rule_keyed],
         "text": "Well-formedness of the emitted assembly decided structurally: (R-LABEL) every label-defining site has one of five "
                 "shapes whose languages are pairwise disjoint given the grammar's identifier classes, counters make generated labels "
                 "unique, generated definition names consult the set of used names; (R-STRIDE) jump_length(n) = n * size of the single "
                 "fixed-size jump that jump_label_fixed emits, one table entry per clause; (R-JTORDER) clauses are normalised to "
-                "declaration order, which the tag arithmetic assumes; (R-IMM, via the symbolic machine) every immediate, shift and "
+                "declaration order, which the tag arithmetic assumes - the normalisation itself happens in the type checker, whose "
+                "checked clause lists of Case and New are built by a loop over the declaration's xtors (R-KEYED); (R-IMM, via the symbolic machine) every immediate, shift and "
                 "memory offset of the arithmetic/compare/move/literal templates fits the instruction form it is printed in, for "
                 "literals of every magnitude in every placement.",
         "assumptions": ["validity of every instruction form as such (beyond immediates/offsets and memory-destination imul) is not decided",
